@@ -159,6 +159,13 @@ class C08:
         variants.append(variant("no-trackers", announce=None))
         variants.append(variant("outdir", outfile=os.path.join(outdir, "sub") + "/"))
         os.makedirs(os.path.join(outdir, "sub"))
+        if isdir:
+            # the metafile is saved INSIDE the content directory (a new file there): the payload is what the
+            # directory held when create was asked, wherever the result is put (own copy: it gains a file)
+            Dp = os.path.join(scratch, "D", "inside")
+            materialise(os.path.join(Dp, name), tree["files"], tree["dirs"], tree.get("links", ()))
+            variants.append(variant("out-inside-payload", path=os.path.join(Dp, name),
+                                    outfile=os.path.join(Dp, name, rng.choice(["saved here.torrent", "0.torrent", "zz.torrent"]))))
         variants.append(variant("progress0", progress=0))
         variants.append(variant("progress2", progress=2))
         variants.append(variant("clock", clock_shift=rng.choice([-400, 3, 9000])))
